@@ -257,7 +257,7 @@ class Norm:
                 return ('term', 'Sub', a)
             if op == 'len' and isinstance(a[0], tuple) and a[0][0] == 'term' and a[0][1] == 'bytes':
                 return ('term', 'len', a)
-            if op in ('call:array::index', 'call:index::index') and len(a) == 2 and isinstance(a[1], tuple) and a[1][0] == 'adt' and a[1][1].startswith('core::ops::range::'):
+            if op in ('call:array::index', 'call:index::index', 'call:array::index_mut', 'call:index::index_mut') and len(a) == 2 and isinstance(a[1], tuple) and a[1][0] == 'adt' and a[1][1].startswith('core::ops::range::'):
                 r = RangeEngine._range_of(a[1])
                 if r:
                     lo, hi, incl = r
@@ -268,7 +268,27 @@ class Norm:
     def lin(self, v):
         return self.P.lin(self.simp(v))
 
+    def with_state(self, eng, s):
+        """len(bytes(pkt)) = length of the buffer the packet view was created over"""
+        self._eng, self._s = eng, s
+        return self
+
+    def _bytes_len(self, v, depth=0):
+        if not isinstance(v, tuple) or depth > 30:
+            return v
+        if v[0] == 'term' and v[1] == 'len' and isinstance(v[2][0], tuple) and v[2][0][0] == 'term' and v[2][0][1] == 'bytes' and getattr(self, '_eng', None):
+            pk = v[2][0][2][0]
+            stt = self._eng.pkt_state(self._s, pk)
+            if stt is not None and stt[5] is not None:
+                return ('term', 'len', [self._bytes_len(stt[5], depth + 1)])
+        if v[0] == 'term':
+            return ('term', v[1], [self._bytes_len(x, depth + 1) for x in v[2]])
+        if v[0] == 'adt':
+            return ('adt', v[1], v[2], v[3], [self._bytes_len(x, depth + 1) for x in v[4]])
+        return v
+
     def equal(self, a, b):
+        a, b = self._bytes_len(a), self._bytes_len(b)
         la, lb = self.lin(a), self.lin(b)
         if la is None or lb is None:
             return False
